@@ -341,11 +341,25 @@ class _Tunnel(Interface):
         async with self._send_lock:
             # don't drop frames when reconnecting - wait for reconnect to finish
             if self._reconnect_task is not None:
-                try:
-                    await self._reconnect_task
-                except asyncio.CancelledError:
-                    pass
+                await self._wait_for_reconnect(self._reconnect_task)
             yield
+
+    @staticmethod
+    async def _wait_for_reconnect(reconnect_task: asyncio.Task[None]) -> bool:
+        """
+        Wait for a running reconnect. Return False if the reconnect was cancelled.
+
+        The reconnect is shielded: cancelling a sender that waits for it must not
+        cancel the reconnect itself - and such a sender stays cancelled.
+        """
+        try:
+            await asyncio.shield(reconnect_task)
+        except asyncio.CancelledError:
+            current_task = asyncio.current_task()
+            if current_task is not None and current_task.cancelling():
+                raise
+            return False
+        return True
 
     async def send_cemi(self, cemi: CEMIFrame) -> None:
         """
@@ -565,13 +579,11 @@ class UDPTunnel(_Tunnel):
                     raise CommunicationError(
                         "Sending TunnellingRequest failed twice. No reconnect.", True
                     )
-                try:
-                    await self._reconnect_task
-                except asyncio.CancelledError:
+                if not await self._wait_for_reconnect(self._reconnect_task):
                     raise CommunicationError(
                         "Sending TunnellingRequest failed twice. Reconnect was cancelled.",
                         True,
-                    ) from None
+                    )
 
                 try:
                     await self._tunnelling_request(raw_cemi)
